@@ -146,7 +146,7 @@ def run(prop, tier, seed, profile, spec, interest, proof_files, n_quick=1500, n_
         mismatches_not_about_this_property=other, samples=samples,
         source_blobs=repo_blob_ids(['sismic/interpreter/default.py', 'sismic/code/python.py', 'sismic/utilities.py',
                                     'sismic/model/statechart.py', 'sismic/interpreter/listener.py']),
-        proof_info={k: info.get(k) for k in ('build_ok', 'ok', 'closed', 'axioms', 'forbidden_tokens', 'note')},
+        proof_info={k: info.get(k) for k in ('build_ok', 'ok', 'closed', 'axioms', 'forbidden_tokens', 'note', 'coqchk')},
     )
     cov.update(extra_cov)
     write_evidence(prop, tier, seed, t0, cov, list(assumptions), n_viol, level=level)
